@@ -47,6 +47,24 @@ pub fn run(ctx: &Ctx) -> Outcome {
         out.violations.extend(findings_to_violations(scn, &r.findings, &judge));
         out.parts.push(p);
     }
+    // a trickle of tiny writes (every arrival inside the previous one's delayed-ACK interval)
+    {
+        let scn = lib::paced_tiny_writes();
+        let cfg = ExploreCfg { max_dev: ctx.tier.pick(1, 2), min_k: 2, fates: fates_basic(), eligible: &always, judge: &judge, max_runs: ctx.tier.pick(20_000, 1_000_000) };
+        let r = explore(ctx, &scn, &cfg);
+        let mut p = Part::fe(&format!("duo:{}", scn.name));
+        p.evaluations = r.runs;
+        p.distinct_nontrivial = r.distinct_traces;
+        p.distinct_outcomes = r.outcome_classes.len() as u64;
+        p.bound = format!("all fair-lossy plans with <= {} deviations at send index >= 2; per level {:?}", r.completed_bound, r.per_level);
+        if let Some(c) = &r.capped {
+            p.caps_hit.push(c.clone());
+            p.exhaustive = false;
+        }
+        p.samples.push(json!({"scenario": scn.name, "plan": []}));
+        out.violations.extend(findings_to_violations(&scn, &r.findings, &judge));
+        out.parts.push(p);
+    }
     // progress on size-blackholing paths (MTU probing active): the fault-free plan and every single drop
     for (bh, em, retx) in [(Some(600usize), None, 1usize), (Some(600), None, 0), (None, Some(620usize), 1), (None, None, 1)] {
         let mut scn = lib::mtu_transfer(700, bh, em, 12_000, false);
@@ -153,6 +171,10 @@ pub fn run(ctx: &Ctx) -> Outcome {
         p.samples.push(json!({"rx_buf": 1000, "plan": []}));
         out.parts.push(p);
     }
+    // a trickle from the peer (one small packet every 5..35 ms, each arrival inside the delayed-ACK interval
+    // of the previous one, never 2 segments' worth unacknowledged): the acknowledgement must not be held
+    // back until the peer's retransmission timer (>= 200 ms) decides the pace
+    out.merge(trickle_from_peer(ctx));
     // clause 3: wake-ups / immediacy / no deadlock, in every state of the flow and close drivers (solo)
     {
         use super::solo_drivers::*;
@@ -176,9 +198,80 @@ pub fn run(ctx: &Ctx) -> Outcome {
         let tc = ThreadsCfg { base_depth: ctx.tier.pick(1, 3), preemption_bound: ctx.tier.pick(Some(2), Some(3)), max_runs_per_case: ctx.tier.pick(2_000, 100_000), with_suffix: false, triples: true, doubles: true, budget_share: 0.3 };
         explore_threads(ctx, &tx_flow(ctx.tier, 8, 32, 0), &tc, &mut out);
         explore_threads(ctx, &rx(ctx.tier, 2, vec![MSS], 0), &tc, &mut out);
-        explore_threads(ctx, &close(ctx.tier, 0), &tc, &mut out);
+        explore_threads(ctx, &close_plain(ctx.tier, 0), &tc, &mut out);
     }
     out.rule = "C02: every plan of <= d drop/dup/delay deviations (d below the retransmission limit, hence fair) must complete within the horizon; loss-free runs additionally satisfy the promptness clause".into();
     out.assumptions.push("liveness is decided as bounded liveness: virtual-time horizon 20 s with the inactivity timeout configured to 30 s".into());
+    out
+}
+
+
+fn trickle_from_peer(ctx: &Ctx) -> Outcome {
+    use crate::solo::{bfs, world::*};
+    let mut out = Outcome::default();
+    let mut part = Part::fe("solo:trickle-from-peer");
+    let mut seen = std::collections::HashSet::new();
+    for gap in [5u64, 10, 20, 30, 35, 39] {
+        for extra_polls in [false, true] {
+            let mut cfg = SoloCfg::tiny(10);
+            cfg.peer_lens = vec![1];
+            cfg.rx_buf = 8 * 10;
+            let mut actions = vec![];
+            let rounds = (400 / gap).min(19) as usize; // < 20 bytes in total: never two segments' worth
+            for _ in 0..rounds {
+                actions.push(Act::Deliver(Pkt::Data { off: 0, ack: AckSpec::Cur, wnd: WndSpec::Default }));
+                if extra_polls {
+                    actions.push(Act::Spurious);
+                }
+                actions.push(Act::Sleep(gap));
+            }
+            // (emissions are stamped with the end of their step: short steps keep the timing exact enough)
+            for _ in 0..12 {
+                actions.push(Act::Sleep(25));
+            }
+            let d = bfs::Driver { name: format!("trickle-{gap}ms{}", if extra_polls { "-polled" } else { "" }), cfg, prefix: vec![], alphabet: actions.clone(), depth: 0, state_cap: 0 };
+            let hist: Vec<u8> = (0..actions.len() as u8).collect();
+            let Some((_, Some((w, _)))) = bfs::execute(&d, &hist, true) else { continue };
+            part.evaluations += 1;
+            // oldest delivered-but-unacknowledged packet along the trace
+            let mut pending: Vec<(u16, u64)> = vec![]; // (seq, delivered at)
+            let mut worst = 0u64;
+            for r in &w.trace {
+                for (h, plen, _) in &r.peer_sent {
+                    if h.ptype == 0 && *plen > 0 {
+                        pending.push((h.seq, r.t_us));
+                    }
+                }
+                for e in &r.emitted {
+                    pending.retain(|(s, t)| {
+                        let acked = (e.hdr.ack.wrapping_sub(*s) as i16) >= 0;
+                        if acked {
+                            worst = worst.max(e.t_us.saturating_sub(*t));
+                        }
+                        !acked
+                    });
+                }
+            }
+            if let Some((_, t)) = pending.first() {
+                worst = worst.max(w.trace.last().map(|r| r.t_us).unwrap_or(0).saturating_sub(*t));
+            }
+            seen.insert((gap, extra_polls, worst / 10_000));
+            if worst >= 200_000 && !out.violations.iter().any(|v| v.signature == "promptness/acknowledgement-withheld-until-the-peers-retransmission-timer") {
+                out.violations.push(Violation {
+                    property: "C02".into(),
+                    monitor: "promptness".into(),
+                    signature: "promptness/acknowledgement-withheld-until-the-peers-retransmission-timer".into(),
+                    detail: format!("[{}] an in-order packet from the peer stayed unacknowledged for {} us on a live, loss-free connection (a packet every {} ms): the peer's retransmission timer (>= 200 ms) fires although nothing was lost", d.name, worst, gap),
+                    replay: bfs::replay_json(&d, &hist),
+                });
+            }
+        }
+    }
+    part.distinct_nontrivial = seen.len() as u64;
+    part.distinct_outcomes = seen.len() as u64;
+    part.bound = "the peer sends 1-byte packets every {5, 10, 20, 30, 35, 39} ms (fewer than 20 bytes in all), with and without an extra poll of the connection after each arrival; outcome = longest time an in-order packet stayed unacknowledged, in 10 ms buckets".into();
+    part.samples.push(json!({"gap_ms": 30, "extra_polls": false}));
+    out.parts.push(part);
+    let _ = ctx;
     out
 }
